@@ -64,6 +64,11 @@ pub trait USet: Sized + Clone + PartialEq + std::fmt::Debug + Send + Sync + 'sta
     fn diff_ref(a: &Self, b: &Self) -> Self;
     fn diff_own(a: Self, b: &Self) -> Self;
     fn debug_string(&self) -> String;
+    /// JSON of a member sequence in the element type's own notation (typed wrappers)
+    #[cfg(any(feature = "serde", feature = "compactserde"))]
+    fn json_of_items(_items: &[u64]) -> Option<String> {
+        None
+    }
     #[cfg(any(feature = "serde", feature = "compactserde"))]
     fn to_json(&self) -> String;
     #[cfg(any(feature = "serde", feature = "compactserde"))]
